@@ -264,7 +264,7 @@ func (e *Encoder) atomicCall(n string, callee *ssa.Function, cm *ssa.CallCommon,
 		return Val{}, false
 	}
 	e.usedStdlib[n+" (sequentially consistent single-word op)"] = true
-	loc := fmt.Sprintf("(lfield %s %d)", args[0].S, fi)
+	loc := c.lfield(args[0].S, cm.Args[0].Type().Underlying().(*types.Pointer).Elem().Underlying().(*types.Struct), fi)
 	isBool := strings.Contains(n, "atomic.Bool)")
 	toField := func(v Val) string {
 		if isBool {
